@@ -20,6 +20,15 @@ PLANS = {
     "C07": {"level": "exploration", "exhaustive": False, "legs": [leg("main")]},
     "C08": {"level": "exploration", "exhaustive": False, "legs": [leg("main"), leg("race", flavour="race", tiers=("thorough",), env={"VERIF_SMALL": "1"})]},
     "C09": {"level": "exploration", "exhaustive": False, "legs": [leg("main"), leg("race", flavour="race", tiers=("thorough",), env={"VERIF_SMALL": "1"})]},
+    "C10": {"level": "exploration", "exhaustive": False, "legs": [
+        # one goroutine per process (exact per-attempt allocation deltas); parallelism = batches
+        leg("direct", leg="direct", batches={"quick": 16, "thorough": 64}, parallel=16, workers=1),
+        leg("value", leg="value", workers=1),
+        # each batch is a supervisor that pipes cases to restartable conn-child processes
+        leg("conn", leg="conn", batches={"quick": 8, "thorough": 32}, parallel=8, workers=1),
+        # one child process per case; the String() sites copy multi-GiB buffers
+        leg("bigalloc", leg="bigalloc", batches={"quick": 1, "thorough": 3}, parallel=3, workers=1),
+    ]},
     "C11": {"level": "exploration", "exhaustive": False, "legs": [leg("main"), leg("race", flavour="race", tiers=("thorough",), env={"VERIF_SMALL": "1"})]},
     "C12": {"level": "exploration", "exhaustive": False, "replay_flavour": "race",
             "legs": [leg("main", flavour="race", race_is_violation=True, batches={"quick": 4, "thorough": 32}, parallel=4,
